@@ -459,6 +459,12 @@ def faults(case, toks, log, items):
 
 
 def errpos(case, toks, log, items):
+    if case['pol'].startswith('dul.') and not oracles.builtin_policy_check(case, log):
+        # a limited policy refused as documented: what came before counts (the refusal itself is C09's subject)
+        bl = next((k for k, t in enumerate(toks) if oracles.strip_growth(t).startswith('E:bl')), None)
+        if bl is not None:
+            case = dict(case, ops=case['ops'][:bl])
+            toks = toks[:bl]
     v = oracles.history_oracle(case, toks, items, positions=False, err_fields=True, sets=False)
     if v.failures:
         return v
